@@ -10,6 +10,7 @@ import desper
 from hypothesis import strategies as st
 
 from vlib.core import PropertyViolation
+from vlib import worldops
 
 ID = 'C14'
 LEVEL = 'fault_enumeration'
@@ -61,7 +62,10 @@ def strategy():
         # what the time function returns: 0 floats (multiples of 1/8), 1 integers beyond 2**53 (nanosecond
         # clocks), 2 exact rationals - the deltas are the exact differences in each case
         'clock': st.integers(0, 2),
-        'faults': st.lists(st.integers(0, 16 * 4 * 10 * 3 - 1).map(decode_fault), max_size=2)})
+        'faults': st.lists(st.integers(0, 16 * 4 * 10 * 3 - 1).map(decode_fault), max_size=2),
+        # scale: 0, or the number of iterations of the first start() (the clock readings are continued by
+        # cycling through the generated gaps); faults are then enumerated at sampled iterations only
+        'amp': worldops.size_amp(none=60, sizes=(70, 130, 260, 300, 520))})
 
 
 class Proc(desper.Processor):
@@ -127,7 +131,10 @@ class Execution:
         else:
             conv = lambda x: x
             t = case['start']
-        for g in case['gaps']:
+        gaps = list(case['gaps'])
+        if case.get('amp'):
+            gaps = (gaps * (case['amp'] // len(gaps) + 2))[:case['amp'] + 12]
+        for g in gaps:
             t += conv(g)
             self.readings.append(t)
         self.g = -1                 # global iteration index
@@ -243,6 +250,8 @@ class Execution:
             self.deltas = set()
             self.loop.switch(self.handles[0])
             for si, budget in enumerate(case['segments']):
+                if si == 0 and case.get('amp'):
+                    budget = case['amp']
                 self.budget = budget
                 self.iter_in_segment = 0
                 self.end_reason = 'clock'
@@ -316,10 +325,17 @@ def run_case(case):
         execs += 1
     iterations = base.g + 1
     maxprocs = max(case['worlds'])
-    for g in range(iterations):
-        for pos in range(maxprocs):
-            for a in range(len(ACTIONS)):
-                for target in range(len(case['worlds'])) if 'switch' in ACTIONS[a] else (0,):
+    frames = range(iterations)
+    if case.get('amp'):
+        frames = sorted({g for g in ([0, 1, iterations - 2, iterations - 1] + [b + d for b in (64, 128, 256, 512)
+                                                                            for d in (-1, 0, 1, 2)])
+                         if 0 <= g < iterations})
+    amp = bool(case.get('amp'))
+    for g in frames:
+        for pos in (range(maxprocs) if not amp else (0,)):
+            for a in (range(len(ACTIONS)) if not amp else (0, 4, 5)):      # long runs: quit / raise switch / error
+                for target in (range(len(case['worlds'])) if not amp else (len(case['worlds']) - 1,)) \
+                        if 'switch' in ACTIONS[a] else (0,):
                     Execution(case, [[g, pos, a, target]]).run()
                     execs += 1
     nontrivial = (iterations >= 3 and len(base.deltas) >= 2 and maxprocs >= 2) or base.flags['restart']
@@ -332,4 +348,6 @@ def run_case(case):
         classes.append('two_distinct_positive_deltas')
     if base_faults:
         classes.append('generated_multi_fault_script')
+    if amp:
+        classes.append('long_run')
     return {'nontrivial': bool(nontrivial), 'classes': classes, 'executions': execs, 'steps': iterations}
